@@ -431,18 +431,22 @@ def sid_case():
       st.booleans(),
       st.one_of(st.integers(1, 3), st.lists(st.integers(1, 3), min_size=1,
                                             max_size=rank)),
-      st.booleans(), st.integers(0, 10**6)))
+      st.booleans(), st.integers(0, 10**6),
+      # which of the scan axes are spelled as negative indices
+      st.lists(st.booleans(), min_size=rank, max_size=rank)))
 
 
 @clause('scan_in_dim', strategy=sid_case, quick=300, thorough=8000,
         shrink=False, x64=True,
         rule='rank 1-4 arrays (dims 1-3) x ordered tuple of distinct scan '
-        'axes x keepdims x unroll (int or tuple) x pytree xs; reference = '
+        'axes (each spelled as a positive or negative index) x keepdims x unroll (int or tuple) x pytree xs; reference = '
         'nested Python loops in the order of the axis tuple; non-trivial = '
         '>=2 scan axes or scan axis != 0')
 def scan_in_dim(case, ctx):
-  shape, axes, keepdims, unroll, as_tree, seed = case
+  shape, axes, keepdims, unroll, as_tree, seed, *rest = case
   axes = tuple(axes)
+  negs = rest[0] if rest else [False] * len(axes)
+  spelled = tuple(a - len(shape) if n else a for a, n in zip(axes, negs))
   if isinstance(unroll, list):
     unroll = tuple(unroll[:len(axes)])
   rng = np.random.default_rng(seed)
@@ -460,7 +464,7 @@ def scan_in_dim(case, ctx):
   inp = {'a': jnp.asarray(xs), 'b': jnp.asarray(xs2)} if as_tree else \
       jnp.asarray(xs)
   with sut('scan_in_dim'):
-    c, ys = jax_utils.scan_in_dim(body, jnp.asarray(0.25), inp, axis=axes,
+    c, ys = jax_utils.scan_in_dim(body, jnp.asarray(0.25), inp, axis=spelled,
                                   unroll=unroll, keepdims=keepdims)
   # reference
   rc = 0.25
@@ -484,14 +488,15 @@ def scan_in_dim(case, ctx):
           lambda: f'final carry {float(c)} != loop {rc}')
   got_y = np.asarray(ys['y'] if as_tree else ys)
   require(got_y.shape == tuple(shape), lambda: f'ys shape {got_y.shape} != '
-          f'{tuple(shape)}')
+          f'{tuple(shape)} (axis={spelled})')
   require(np.allclose(got_y, out_y, rtol=1e-9, atol=1e-11),
-          lambda: f'ys differ from nested loop (axes={axes}, keepdims='
+          lambda: f'ys differ from nested loop (axis={spelled}, keepdims='
           f'{keepdims})')
   if as_tree:
     require(np.allclose(np.asarray(ys['c']), out_c, rtol=1e-9, atol=1e-11),
             'second output differs from nested loop')
-  ctx.note(labels=[f'naxes{len(axes)}', 'keepdims' if keepdims else 'nokeep'],
+  ctx.note(labels=[f'naxes{len(axes)}', 'keepdims' if keepdims else 'nokeep']
+           + (['negative-axis'] if any(a < 0 for a in spelled) else []),
            nontrivial=len(axes) >= 2 or axes[0] != 0)
 
 
